@@ -156,10 +156,23 @@ func (f *failingBody) Read(p []byte) (int, error) {
 }
 func (f *failingBody) Close() error { return nil }
 
-func (rt *fakeRT) RoundTrip(r *http.Request) (*http.Response, error) {
+// namedRT is the transport of one backend object: exchanges are attributed to the
+// backend they were dispatched to even when two backends share an address
+type namedRT struct {
+	rt   *fakeRT
+	name string
+}
+
+func (n *namedRT) RoundTrip(r *http.Request) (*http.Response, error) { return n.rt.roundTrip(r, n.name) }
+
+func (rt *fakeRT) RoundTrip(r *http.Request) (*http.Response, error) { return rt.roundTrip(r, "") }
+
+func (rt *fakeRT) roundTrip(r *http.Request, name string) (*http.Response, error) {
 	info, _ := r.Context().Value(ctxKey("info")).(*reqInfo)
 	rt.mu.Lock()
-	name := rt.byHost[r.URL.Host]
+	if name == "" {
+		name = rt.byHost[r.URL.Host]
+	}
 	mode := rt.mode[name]
 	rt.mu.Unlock()
 	if name == "" {
@@ -343,8 +356,8 @@ func (s *sim) buildConfig() *config.Config {
 
 func (s *sim) patchTransports() {
 	for _, b := range s.lb.VerifBackends() {
-		if _, ok := b.ReverseProxy.Transport.(*fakeRT); !ok {
-			b.ReverseProxy.Transport = s.rt
+		if _, ok := b.ReverseProxy.Transport.(*namedRT); !ok {
+			b.ReverseProxy.Transport = &namedRT{rt: s.rt, name: b.Name}
 		}
 		s.rt.mu.Lock()
 		s.rt.byHost[b.URL.Host] = b.Name
